@@ -21,6 +21,24 @@ def main(argv):
     seed = int(os.environ.get('VERIF_SEED', '0') or 0)
     ck = harness.Check(prop, tier, seed)
     mod = importlib.import_module('specs.' + prop)
+    # one spec that trips over an engine limitation must not take the other specs of the check with it
+    def guard(fn):
+        def wrapped(*a, **kw):
+            try:
+                return fn(*a, **kw)
+            except Exception as e:  # engine bug / unsupported shape: never an alarm, but said out loud
+                traceback.print_exc()
+                ck.add('engine-error/' + fn.__name__, 'inconclusive', '%s: %s' % (type(e).__name__, e))
+                return None
+        wrapped.__name__ = fn.__name__
+        wrapped._guarded = True
+        return wrapped
+    for mname, m in list(sys.modules.items()):
+        if mname.startswith('specs.') and m is not None:
+            for an in dir(m):
+                f = getattr(m, an)
+                if callable(f) and an.startswith(('spec_', 'check_', 'run_all')) and getattr(f, '__module__', None) == mname and not getattr(f, '_guarded', False):
+                    setattr(m, an, guard(f))
     try:
         mod.run(ck)
     except Exception as e:  # engine bug: never an alarm
